@@ -104,4 +104,13 @@ theorem sources_poly (m : Nat) (params : Nat → ℝ) (cov : Nat → Nat → ℝ
       have := List.mem_range.mp hi
       omega
 
+/-- the other pre-set fit functions depend on their parameter variables only -/
+theorem sources_preset (model : FitModel) (hm : model ≠ .polynomial) (params : Nat → ℝ)
+    (cov : Nat → Nat → ℝ) (x : ℝ) :
+    ∀ k ∈ sources ((⟨Gen.fitFixedParams model, Gen.fitRule model, params, cov⟩ :
+      FitResult ℝ).funExpr (Expr.const x)), k < Gen.fitFixedParams model := by
+  cases model <;>
+    simp_all [FitResult.funExpr, Gen.fitRule, Gen.fitFixedParams, Expr.arg, sources, List.range_succ,
+      List.eraseDups_cons]
+
 end QExPy
